@@ -134,6 +134,14 @@ CMP_FUNCS = {
     "np.greater_equal": ">=",
     "np.equal": "==",
     "np.not_equal": "!=",
+    "operator.lt": "<",
+    "operator.le": "<=",
+    "operator.gt": ">",
+    "operator.ge": ">=",
+    "operator.eq": "==",
+    "operator.ne": "!=",
+    "operator.is_": "is",
+    "operator.is_not": "isnot",
 }
 # ndarray methods normalised to their function form: x.m(...) == np.m(x, ...)
 METHOD_ALIASES = {
